@@ -148,13 +148,16 @@ def r_check_before_insert(c):
         fd = m.func(qn)
         where = m.loc(m.module_of(fd), fd)
         name = qn.replace("pytato.", "", 1)
-        tests = [(k, t, i) for (k, t, i) in _raising_membership_tests(fd)
+        # (the function and the private helpers it was split into; each test is then
+        # followed through the function it lives in)
+        tests = [(k, t, i, f_) for f_ in m.scope(fd)
+                 for (k, t, i) in _raising_membership_tests(f_)
                  if any(err in ast.unparse(s) for s in i.body)]
         c.check(len(tests) >= need, "R10-CHECK-BEFORE-INSERT", name,
                 f"has-{need}-raising-duplicate-test(s)", where,
                 f"fewer than {need} `if key in table: raise {err}...` tests: a duplicate "
                 "send/receive identifier is no longer diagnosed")
-        for key, tbl, iff in tests:
+        for key, tbl, iff, owner in tests:
             def cl(n, tbl=tbl, key=key):
                 if isinstance(n, ast.Compare) and len(n.ops) == 1 and isinstance(n.ops[0], ast.In) \
                         and ast.unparse(n.left) == key and ast.unparse(n.comparators[0]) == tbl:
@@ -170,7 +173,7 @@ def r_check_before_insert(c):
                         and n.func.attr.startswith("rec"):
                     return "REC"
                 return None
-            ps = P.walk(fd, cl)
+            ps = P.walk(owner, cl)
             has_ins = any("INSERT" in e for e, _x in ps)
             bad = []
             for e, _x in ps:
